@@ -786,5 +786,56 @@ package res
 //@ func (s *Service) defaultOwnership() (l []string)
 //@   requires s != nil && s.Mux != nil
 //@   modifies alloc, elems:res.Service.resetResources
-//@   ensures ref(l) != 0 && ref(l) >= old(nextRef()) && defaultOwn(l, s.Mux.path)
+//@   ensures ref(l) != 0 && ref(l) >= old(nextRef()) && defaultOwn(l, s.Mux.path) && elemsframe(l)
 //@   ensures unchanged("res.Service.resetResources", "res.Service.resetAccess", "res.Mux.path", "res.Service.Mux")
+//@
+//@ ghostvar subd arrb
+//@ # subd[i]: the i-th candidate pattern was subscribed
+//@ pred ownOK(l []string) = forall(k, 0, len(l), pvalid0(l[k]) && len(l[k]) > 0)
+//@ # dom(b, a): candidate b justifies skipping candidate a: b covers a, and of two candidates covering each other the first is kept
+//@ pred dom(l []string, b int, a int) = b != a && pmatch(l[b], l[a], 0, 0) && (b < a || !pmatch(l[a], l[b], 0, 0))
+//@ func (s *Service) subscribe() (rerr error)
+//@   requires s != nil && s.Mux != nil && s.Mux.root != nil && !isNil(s.nc)
+//@   requires path: pvalid0(s.Mux.path) && forall(k, 0, len(s.Mux.path), !wildAt(s.Mux.path, k))
+//@   requires ownR: imp(ref(s.resetResources) != 0, ownOK(s.resetResources))
+//@   requires ownA: imp(ref(s.resetAccess) != 0, ownOK(s.resetAccess))
+//@   modifies all
+//@   opaque pmatch tokEnd
+//@   ghost loop 4 entry :: set subd = emptyset()
+//@   ghost call Conn.ChanSubscribe#1 before :: assert valid: pvalid0(arg_subject) && len(arg_subject) > 0
+//@   ghost call Conn.ChanQueueSubscribe#1 before :: assert valid.q: pvalid0(arg_subject) && len(arg_subject) > 0 && same(arg_queue, s.queueGroup) && len(arg_queue) > 0
+//@   ghost call Conn.ChanSubscribe#1 after :: set subd = store(subd, i, true)
+//@   ghost call Conn.ChanQueueSubscribe#1 after :: set subd = store(subd, i, true)
+//@   ghost exit :: assert irredundant: imp(isNil(rerr), forall(a, 0, len(patterns), forall(b, 0, len(patterns), imp(a != b && subd[a] && subd[b], !pmatch(patterns[a], patterns[b], 0, 0)))))
+//@   ghost exit :: assert justified: imp(isNil(rerr), forall(a, 0, len(patterns), imp(!subd[a], exists(b, 0, len(patterns), dom(patterns, b, a)))))
+//@   loop 1 invariant idx: -1 <= rangeindex__1 && rangeindex__1 < 3
+//@   loop 2 invariant idx: 0 <= rangeindex__1 && rangeindex__1 < 3 && -1 <= rangeindex__2 && rangeindex__2 < len(s.resetResources) + 0
+//@   loop 3 invariant idx: -1 <= rangeindex__3 && rangeindex__3 < len(s.resetAccess) + 0
+//@   loop 1 invariant own: ref(s.resetResources) != 0 && ref(s.resetAccess) != 0 && ownOK(s.resetResources) && ownOK(s.resetAccess) && !isNil(s.nc) && s != nil
+//@   loop 1 invariant pats: ownOK(patterns) && (ref(patterns) == 0 || (ref(patterns) != ref(s.resetResources) && ref(patterns) != ref(s.resetAccess)))
+//@   loop 2 invariant own: ref(s.resetResources) != 0 && ref(s.resetAccess) != 0 && ownOK(s.resetResources) && ownOK(s.resetAccess) && !isNil(s.nc) && s != nil
+//@   loop 2 invariant pats: ownOK(patterns) && (ref(patterns) == 0 || (ref(patterns) != ref(s.resetResources) && ref(patterns) != ref(s.resetAccess)))
+//@   loop 2 invariant typ: t == "get" || t == "call" || t == "auth"
+//@   loop 3 invariant own: ref(s.resetAccess) != 0 && ownOK(s.resetAccess) && !isNil(s.nc) && s != nil
+//@   loop 3 invariant pats: ownOK(patterns) && (ref(patterns) == 0 || ref(patterns) != ref(s.resetAccess))
+//@   loop 4 invariant base: ownOK(patterns) && !isNil(s.nc) && s != nil && -1 <= rangeindex__4 && rangeindex__4 < len(patterns) + 0 && same(patterns, loopentry(patterns))
+//@   loop 4 invariant done: forall(a, 0, rangeindex__4 + 1, imp(subd[a], forall(b, 0, len(patterns), !dom(patterns, b, a))) && imp(!subd[a], exists(b, 0, len(patterns), dom(patterns, b, a))))
+//@   loop 4 invariant todo: forall(a, rangeindex__4 + 1, len(patterns), !subd[a])
+//@   loop 5 invariant base: ownOK(patterns) && !isNil(s.nc) && s != nil && 0 <= i && i < len(patterns) && i == rangeindex__4 && -1 <= rangeindex__5 && rangeindex__5 < len(patterns) + 0 && same(pattern, patterns[i])
+//@   loop 5 invariant done: forall(a, 0, i, imp(subd[a], forall(b, 0, len(patterns), !dom(patterns, b, a))) && imp(!subd[a], exists(b, 0, len(patterns), dom(patterns, b, a))))
+//@   loop 5 invariant todo: forall(a, i, len(patterns), !subd[a])
+//@   loop 5 invariant sofar: forall(b, 0, rangeindex__5 + 1, !dom(patterns, b, i))
+//@
+//@ func (s *Service) reset(resources []string, access []string)
+//@   requires s != nil && !isNil(s.nc)
+//@   modifies ghost.trn, ghost.trk, ghost.tra, ghost.pubn, alloc, res.resetEvent.Resources, res.resetEvent.Access
+//@   ghost call Service.event#1 before :: assert subject: arg_subj == "system.reset"
+//@   ghost call Service.event#1 before :: assert payload: typeIs(arg_data, "res.resetEvent") && imp(len(resources) > 0, same(unbox(arg_data, "res.resetEvent").Resources, resources))
+//@       && imp(len(resources) == 0, ref(unbox(arg_data, "res.resetEvent").Resources) == 0) && imp(len(access) > 0, same(unbox(arg_data, "res.resetEvent").Access, access))
+//@       && imp(len(access) == 0, ref(unbox(arg_data, "res.resetEvent").Access) == 0)
+//@   ensures silent: imp(len(resources) == 0 && len(access) == 0, trn == old(trn))
+//@ func (s *Service) ResetAll()
+//@   requires s != nil && !isNil(s.nc) && s.Mux != nil && s.Mux.root != nil
+//@   modifies all
+//@   callback onError benign
+//@   ghost call Service.reset#1 before :: assert owned: same(arg_resources, s.resetResources) && same(arg_access, s.resetAccess)
